@@ -2068,10 +2068,10 @@ class LetMacro(Macro):
             ctx.add((prop.lhs, prop.rhs))
 
         body = goal.lhs
-        xs = []
+        xs = dict()
         while body != last_step.lhs and body.is_let():
-            x, _, body = body.dest_let()
-            xs.append(x)
+            x, t, body = body.dest_let()
+            xs[x] = t
 
         # body should equal to the left side of last_step
         if body != last_step.lhs:
@@ -2082,9 +2082,15 @@ class LetMacro(Macro):
         if goal.rhs != last_step.rhs:
             raise VeriTException("let", "right side does not equal")
 
+        # A hypothesis x = s for a let-bound x is discharged only if s is the
+        # term bound to x, or that term is equated with s by one of the premises.
         remain_hyps = []
         for hyp in last_step.hyps:
-            if not (hyp.is_equals() and hyp.lhs in xs):
+            if hyp.is_equals() and hyp.lhs in xs:
+                t = xs[hyp.lhs]
+                if hyp.rhs != t and (t, hyp.rhs) not in ctx:
+                    raise VeriTException("let", "hypothesis %s is not justified" % hyp)
+            else:
                 remain_hyps.append(hyp)
         return Thm(goal, tuple(remain_hyps), *(prop.hyps for prop in prevs[:-1]))
 
